@@ -7,6 +7,7 @@
 // For translator validation the calls are evaluated with the real functions at double / float.
 #include <math.h>
 #include "sym.h"
+#include "c10frac.h" // FracS: Vec::length at exact fractions so that lean_tv covers the entries calling it
 #include "shapes.h"
 #include "main.h"
 #include <ImathMatrixAlgo.h>
